@@ -255,6 +255,33 @@ where
             got.push(it.map_err(|e| Fail::new("read-error", err_str(&e)))?);
         }
         check_pairs("iter_shapes_and_records", &got, &accepted)?;
+        // pairs fetched in two batches on the same reader, with and without the index: shape i still comes with row i
+        for with_index in [true, false] {
+            let (sb, xb, db) = (shp.bytes(), shx.bytes(), dbf.bytes());
+            let sr = if with_index {
+                ShapeReader::with_shx(Cursor::new(sb), Cursor::new(xb))
+            } else {
+                ShapeReader::new(Cursor::new(sb))
+            }
+            .map_err(|e| Fail::new("open-error", err_str(&e)))?;
+            let dr = dbase::Reader::new(Cursor::new(db)).map_err(|e| Fail::new("open-error", format!("dbf: {:?}", e)))?;
+            let mut rd = Reader::new(sr, dr);
+            let k = accepted.len() / 2;
+            let mut got = Vec::new();
+            {
+                let mut it = rd.iter_shapes_and_records();
+                for _ in 0..k {
+                    match it.next() {
+                        Some(Ok(p)) => got.push(p),
+                        Some(Err(e)) => fail!("read-error", "first batch: {}", err_str(&e)),
+                        None => fail!("pair-count", "first batch ends after {} of {} pairs", got.len(), accepted.len()),
+                    }
+                }
+            }
+            let rest = rd.read().map_err(|e| Fail::new("read-error", format!("second batch: {}", err_str(&e))))?;
+            got.extend(rest);
+            check_pairs(if with_index { "two batches (with index)" } else { "two batches (no index)" }, &got, &accepted)?;
+        }
         return Ok(true);
     }
 
